@@ -14,6 +14,9 @@ Definition PIF1 off cond ts e r := exists n0, forall n, n0 <= n -> p_if1 n off c
 Definition PNL off cond te ts e r := exists n0, forall n, n0 <= n -> p_if_nl n off cond te ts = Ok (e, r).
 Definition PAS off ts l r := exists n0, forall n, n0 <= n -> p_atoms n off ts = Ok (l, r).
 Definition PA off ts a r := exists n0, forall n, n0 <= n -> p_atom n off ts = Ok (a, r).
+Definition PCM off ts l r := exists n0, forall n, n0 <= n -> p_commas n off ts = Ok (l, r).
+Definition PSM off ts l r := exists n0, forall n, n0 <= n -> p_semis n off ts = Ok (l, r).
+Definition PFL off ts l r := exists n0, forall n, n0 <= n -> p_fields n off ts = Ok (l, r).
 Definition PRS off ts l r := exists n0, forall n, n0 <= n -> p_rules n off ts = Ok (l, r).
 Definition PRL off ts x r := exists n0, forall n, n0 <= n -> p_rule n off ts = Ok (x, r).
 Definition PUR off ts l r := exists n0, forall n, n0 <= n -> p_urules n off ts = Ok (l, r).
@@ -48,7 +51,7 @@ Proof.
 Qed.
 
 Definition atom_head (t : tok) : Prop :=
-  match t with TA _ | TSTR _ | TUS | TLP => True | _ => False end.
+  match t with TA _ | TSTR _ | TUS | TLP | TLB | TDOT => True | _ => False end.
 
 Lemma PT_atoms off t c r0 l r : atom_head t -> PAS off ((t, c) :: r0) l r -> PT off ((t, c) :: r0) (EApp l) r.
 Proof.
@@ -188,6 +191,60 @@ Proof.
   destruct t1; try congruence; rewrite H1'; cbn [bind]; (fuel n; cbn [p_commas bind]; reflexivity).
 Qed.
 
+Lemma PA_unit off c c1 r : PA off ((TLP, c) :: (TRP, c1) :: r) (APar []) r.
+Proof. exists 1. intros n Hn. fuel n. reflexivity. Qed.
+
+Lemma PCM_nil off ts : match ts with (TCOMMA, _) :: _ => False | _ => True end -> PCM off ts [] ts.
+Proof.
+  intros N. exists 1. intros n Hn. fuel n. cbn [p_commas].
+  destruct ts as [|[t c] r]; [reflexivity|]. destruct t; try reflexivity; contradiction.
+Qed.
+Lemma PCM_cons off c r e r1 es r2 :
+  PE off r e r1 -> PCM off r1 es r2 -> PCM off ((TCOMMA, c) :: r) (e :: es) r2.
+Proof.
+  intros (n1 & H1) (n2 & H2). ev2 n1 n2. cbn [p_commas]. rewrite H1 by lia. cbn [bind]. rewrite H2 by lia. reflexivity.
+Qed.
+Lemma PSM_nil off ts : match ts with (TSEMI, _) :: _ => False | _ => True end -> PSM off ts [] ts.
+Proof.
+  intros N. exists 1. intros n Hn. fuel n. cbn [p_semis].
+  destruct ts as [|[t c] r]; [reflexivity|]. destruct t; try reflexivity; contradiction.
+Qed.
+Lemma PSM_cons off c r e r1 es r2 :
+  PE off r e r1 -> PSM off r1 es r2 -> PSM off ((TSEMI, c) :: r) (e :: es) r2.
+Proof.
+  intros (n1 & H1) (n2 & H2). ev2 n1 n2. cbn [p_semis]. rewrite H1 by lia. cbn [bind]. rewrite H2 by lia. reflexivity.
+Qed.
+
+Lemma PA_tuple off c t1 c1 r e r1 es c2 r3 :
+  t1 <> TRP -> PE off ((t1, c1) :: r) e r1 -> PCM off r1 es ((TRP, c2) :: r3) ->
+  PA off ((TLP, c) :: (t1, c1) :: r) (APar (e :: es)) r3.
+Proof.
+  intros N (n1 & H1) (n2 & H2). ev2 n1 n2. cbn [p_atom].
+  assert (H1' := H1 n ltac:(lia)). assert (H2' := H2 n ltac:(lia)).
+  destruct t1; try congruence; rewrite H1'; cbn [bind]; rewrite H2'; reflexivity.
+Qed.
+Lemma PA_slice off c r e r1 es c2 r3 :
+  PE off r e r1 -> PSM off r1 es ((TRS, c2) :: r3) -> PA off ((TLS, c) :: r) (ASlice (e :: es)) r3.
+Proof.
+  intros (n1 & H1) (n2 & H2). ev2 n1 n2. cbn [p_atom]. rewrite H1 by lia. cbn [bind]. rewrite H2 by lia. reflexivity.
+Qed.
+Lemma PA_rec off c r fs c2 r2 : PFL off r fs ((TRB, c2) :: r2) -> PA off ((TLB, c) :: r) (ARec fs) r2.
+Proof. intros (n1 & H1). ev1 n1. cbn [p_atom]. rewrite H1 by lia. reflexivity. Qed.
+Lemma PT_slice off c r a r' : PA off ((TLS, c) :: r) a r' -> PT off ((TLS, c) :: r) (EApp [a]) r'.
+Proof. intros (n1 & H1). ev1 n1. cbn [p_term]. rewrite H1 by lia. reflexivity. Qed.
+
+Lemma PFL_last off x c r nm c1 r2 e c2 r4 :
+  field_name x r = (nm, (TEQ, c1) :: r2) -> PE off (skip_eol r2) e ((TRB, c2) :: r4) ->
+  PFL off ((TA x, c) :: r) [(nm, e)] ((TRB, c2) :: r4).
+Proof. intros E (n1 & H1). ev1 n1. cbn [p_fields]. rewrite E. rewrite H1 by lia. reflexivity. Qed.
+Lemma PFL_cons off x c r nm c1 r2 e c2 r4 fs r5 :
+  field_name x r = (nm, (TEQ, c1) :: r2) -> PE off (skip_eol r2) e ((TSEMI, c2) :: r4) -> PFL off r4 fs r5 ->
+  PFL off ((TA x, c) :: r) ((nm, e) :: fs) r5.
+Proof.
+  intros E (n1 & H1) (n2 & H2). ev2 n1 n2. cbn [p_fields]. rewrite E. rewrite H1 by lia. cbn [bind].
+  rewrite H2 by lia. reflexivity.
+Qed.
+
 Lemma PRL_intro off c r pat c1 r2 b r3 :
   span_until is_arrow r = (pat, (TARROW, c1) :: r2) -> PB off (skip_eol r2) b r3 ->
   PRL off ((TBAR, c) :: r) (Rule pat b) r3.
@@ -231,10 +288,14 @@ Proof.
   rewrite H2 by lia. reflexivity.
 Qed.
 
+Lemma PS_letv off c r hdr c1 r2 e r3 :
+  span_until is_eq r = (hdr, (TEQ, c1) :: r2) -> is_var_hdr hdr = true -> PE off (skip_eol r2) e r3 ->
+  PS off ((TLET, c) :: r) (SLet hdr e) r3.
+Proof. intros E V (n1 & H1). ev1 n1. cbn [p_stmt]. rewrite E, V. rewrite H1 by lia. reflexivity. Qed.
 Lemma PS_let off c r x c1 r2 e r3 :
   span_until is_eq r = ([TA x], (TEQ, c1) :: r2) -> PE off (skip_eol r2) e r3 ->
   PS off ((TLET, c) :: r) (SLet [TA x] e) r3.
-Proof. intros E (n1 & H1). ev1 n1. cbn [p_stmt]. rewrite E. cbn [is_var_hdr]. rewrite H1 by lia. reflexivity. Qed.
+Proof. intros E P. eapply PS_letv; [exact E|reflexivity|exact P]. Qed.
 
 Lemma PS_letfn off c r hdr c1 r2 b r3 :
   span_until is_eq r = (hdr, (TEQ, c1) :: r2) -> is_var_hdr hdr = false -> PB off (skip_eol r2) b r3 ->
@@ -242,7 +303,7 @@ Lemma PS_letfn off c r hdr c1 r2 b r3 :
 Proof. intros E V (n1 & H1). ev1 n1. cbn [p_stmt]. rewrite E, V. rewrite H1 by lia. reflexivity. Qed.
 
 Definition expr_head (t : tok) : Prop :=
-  match t with TA _ | TSTR _ | TUS | TLP | TIF | TMATCH | TFUN => True | _ => False end.
+  match t with TA _ | TSTR _ | TUS | TLP | TLB | TLS | TDOT | TIF | TMATCH | TFUN => True | _ => False end.
 
 Lemma PS_expr off t c r0 e r : expr_head t -> PE off ((t, c) :: r0) e r -> PS off ((t, c) :: r0) (SExpr e) r.
 Proof.
@@ -299,6 +360,44 @@ Proof. reflexivity. Qed.
 (* unfolding equations of the mutually recursive definitions (all by computation) *)
 Lemma r_atom_LLam c ps b cl : r_atom inner c (LLam ps b cl) =
   (TLP, c) :: (TFUN, inner) :: atoks ps ++ (TARROW, inner) :: r_body inner b ++ r_close inner cl.
+Proof. reflexivity. Qed.
+Lemma r_atom_LGroup c k f e more cl : r_atom inner c (LGroup k f e more cl) =
+  (g_open k, c) :: r_fld inner inner f ++ r_expr inner (fld_col inner inner f) e ++ r_seq inner k more ++ r_gclose inner k cl.
+Proof. reflexivity. Qed.
+Lemma r_seq_QCons k sb f c e more : r_seq inner k (QCons sb f c e more) =
+  r_sep inner k sb ++ r_fld inner c f ++ r_expr inner (fld_col inner c f) e ++ r_seq inner k more.
+Proof. reflexivity. Qed.
+Lemma er_atom_LGroup k f e more cl : er_atom (LGroup k f e more cl) =
+  match k with
+  | GPar => APar (er_expr e :: er_seq more)
+  | GSlice => ASlice (er_expr e :: er_seq more)
+  | GRec => ARec ((er_fld f, er_expr e) :: er_fseq more)
+  end.
+Proof. reflexivity. Qed.
+Lemma er_seq_QCons sb f c e more : er_seq (QCons sb f c e more) = er_expr e :: er_seq more.
+Proof. reflexivity. Qed.
+Lemma er_fseq_QCons sb f c e more : er_fseq (QCons sb f c e more) = (er_fld f, er_expr e) :: er_fseq more.
+Proof. reflexivity. Qed.
+Lemma wf_atom_LGroup off k f e more cl : wf_atom off (LGroup k f e more cl) =
+  (fld_ok k f /\ wf_expr off e /\ wf_seq off k (expr_bd e) more cl).
+Proof. reflexivity. Qed.
+Lemma wf_seq_QNil off k bd cl : wf_seq off k bd QNil cl = close_ok k bd cl.
+Proof. reflexivity. Qed.
+Lemma wf_seq_QCons off k bd sb f c e more cl : wf_seq off k bd (QCons sb f c e more) cl =
+  (sep_ok bd sb /\ fld_ok k f /\ wf_expr off e /\ wf_seq off k (expr_bd e) more cl).
+Proof. reflexivity. Qed.
+Lemma r_stmt_LLetD_same c x y zs e : r_stmt inner c (LLetD x y zs None e) =
+  (TLET, c) :: (TLP, inner) :: (TA x, inner) :: (TCOMMA, inner) :: (TA y, inner) :: r_dnames inner zs ++
+  (TRP, inner) :: (TEQ, inner) :: r_expr inner inner e.
+Proof. reflexivity. Qed.
+Lemma r_stmt_LLetD_next c x y zs bl c' e : r_stmt inner c (LLetD x y zs (Some (bl, c')) e) =
+  (TLET, c) :: (TLP, inner) :: (TA x, inner) :: (TCOMMA, inner) :: (TA y, inner) :: r_dnames inner zs ++
+  (TRP, inner) :: (TEQ, inner) :: nl bl ++ r_expr inner c' e.
+Proof. reflexivity. Qed.
+Lemma er_stmt_LLetD x y zs nl0 e : er_stmt (LLetD x y zs nl0 e) =
+  SLet (TLP :: TA x :: TCOMMA :: TA y :: er_dnames zs ++ [TRP]) (er_expr e).
+Proof. reflexivity. Qed.
+Lemma wf_stmt_LLetD off x y zs nl0 e : wf_stmt off (LLetD x y zs nl0 e) = wf_expr off e.
 Proof. reflexivity. Qed.
 Lemma r_atoms_ACons c a l : r_atoms inner (ACons c a l) = r_atom inner c a ++ r_atoms inner l.
 Proof. reflexivity. Qed.
@@ -441,7 +540,7 @@ Lemma wf_atom_LLam off ps b cl : wf_atom off (LLam ps b cl) = wf_body off b.
 Proof. reflexivity. Qed.
 Lemma wf_atoms_ACons off c a l : wf_atoms off (ACons c a l) = (wf_atom off a /\ wf_atoms off l).
 Proof. reflexivity. Qed.
-Lemma wf_term_LApp off a l : wf_term off (LApp a l) = (wf_atom off a /\ wf_atoms off l).
+Lemma wf_term_LApp off a l : wf_term off (LApp a l) = (wf_atom off a /\ wf_atoms off l /\ (is_slice a = true -> l = ANil)).
 Proof. reflexivity. Qed.
 Lemma wf_term_LIf off c tl : wf_term off (LIf c tl) = wf_tail off tl.
 Proof. reflexivity. Qed.
@@ -483,7 +582,8 @@ Lemma wf_body_BNext off bl b : wf_body off (BNext bl b) = wf_block off b.
 Proof. reflexivity. Qed.
 Lemma wf_expr_LT off t : wf_expr off (LT t) = wf_term off t.
 Proof. reflexivity. Qed.
-Lemma wf_expr_LOp off a l brk o e : wf_expr off (LOp a l brk o e) = (wf_atom off a /\ wf_atoms off l /\ wf_expr off e).
+Lemma wf_expr_LOp off a l brk o e : wf_expr off (LOp a l brk o e) =
+  (wf_atom off a /\ wf_atoms off l /\ (is_slice a = true -> l = ANil) /\ wf_expr off e).
 Proof. reflexivity. Qed.
 Lemma wf_stmt_LLet off x nl0 e : wf_stmt off (LLet x nl0 e) = wf_expr off e.
 Proof. reflexivity. Qed.
@@ -520,14 +620,25 @@ Qed.
 Lemma stmt_head_noelse t : stmt_head t -> t <> TELSE /\ t <> TELIF.
 Proof. intros [->|H]; [split; discriminate|]. destruct t; cbn in H; try contradiction; split; discriminate. Qed.
 
-Lemma r_atom_head c a k : exists t (r : list ptok), r_atom inner c a ++ k = @cons ptok (t, c) r /\ atom_head t.
-Proof. destruct a; cbn; eexists; eexists; split; try reflexivity; exact I. Qed.
+Lemma r_atom_head c a k : exists t (r : list ptok), r_atom inner c a ++ k = @cons ptok (t, c) r /\
+  (if is_slice a then t = TLS else atom_head t).
+Proof.
+  destruct a as [x|x|ps b cl| |g f e more cl]; try (cbn; eexists; eexists; split; [reflexivity|exact I]).
+  rewrite r_atom_LGroup. cbn [app]. eexists; eexists; split; [reflexivity|]. destruct g; cbn; auto.
+Qed.
+Lemma r_atom_head_e c a k : exists t (r : list ptok), r_atom inner c a ++ k = @cons ptok (t, c) r /\
+  expr_head t /\ end_of_term (@cons ptok (t, c) r) = false.
+Proof.
+  destruct (r_atom_head c a k) as (t & r & E & H). exists t, r. split; [exact E|].
+  destruct (is_slice a); [subst t; split; [exact I|reflexivity]|].
+  destruct t; cbn in H; try contradiction; split; try exact I; reflexivity.
+Qed.
 
 Lemma r_term_head c t k : exists t0 (r : list ptok), r_term inner c t ++ k = @cons ptok (t0, c) r /\ expr_head t0.
 Proof.
   destruct t as [a l|cd tl|tg b0 arms|tg b0 arms].
-  - rewrite r_term_LApp, <- app_assoc. destruct (r_atom_head c a (r_atoms inner l ++ k)) as (t0 & r & E & H).
-    exists t0, r. split; [exact E|]. apply atom_head_facts; exact H.
+  - rewrite r_term_LApp, <- app_assoc. destruct (r_atom_head_e c a (r_atoms inner l ++ k)) as (t0 & r & E & H & _).
+    exists t0, r. split; [exact E|exact H].
   - rewrite r_term_LIf. cbn [app]. eexists; eexists; split; [reflexivity|exact I].
   - rewrite r_term_LMatch. cbn [app]. eexists; eexists; split; [reflexivity|exact I].
   - rewrite r_term_LSMatch. cbn [app]. eexists; eexists; split; [reflexivity|exact I].
@@ -538,15 +649,17 @@ Proof.
   destruct e as [t|a l brk o e'].
   - rewrite r_expr_LT. apply r_term_head.
   - rewrite r_expr_LOp, <- app_assoc.
-    destruct (r_atom_head c a ((r_atoms inner l ++ r_brk inner brk o ++ r_expr inner inner e') ++ k)) as (t0 & r & E & H).
-    exists t0, r. split; [exact E|]. apply atom_head_facts; exact H.
+    destruct (r_atom_head_e c a ((r_atoms inner l ++ r_brk inner brk o ++ r_expr inner inner e') ++ k)) as (t0 & r & E & H & _).
+    exists t0, r. split; [exact E|exact H].
 Qed.
 
 Lemma r_stmt_head c s k : exists t0 (r : list ptok), r_stmt inner c s ++ k = @cons ptok (t0, c) r /\ stmt_head t0.
 Proof.
-  destruct s as [x [[bl c']|] e|f p ps b|e].
+  destruct s as [x [[bl c']|] e|x y zs [[bl c']|] e|f p ps b|e].
   - rewrite r_stmt_LLet_next. cbn [app]. eexists; eexists; split; [reflexivity|left; reflexivity].
   - rewrite r_stmt_LLet_same. cbn [app]. eexists; eexists; split; [reflexivity|left; reflexivity].
+  - rewrite r_stmt_LLetD_next. cbn [app]. eexists; eexists; split; [reflexivity|left; reflexivity].
+  - rewrite r_stmt_LLetD_same. cbn [app]. eexists; eexists; split; [reflexivity|left; reflexivity].
   - rewrite r_stmt_LLetFn. cbn [app]. eexists; eexists; split; [reflexivity|left; reflexivity].
   - rewrite r_stmt_LExpr. destruct (r_expr_head c e k) as (t0 & r & E & H). exists t0, r. split; [exact E|right; exact H].
 Qed.
@@ -715,11 +828,12 @@ Lemma wf_expr_bd off e b : wf_expr off e -> expr_bd e = Some b -> off < b.
 Proof.
   induction e as [t|a l brk o e IH]; cbn [wf_expr expr_bd].
   - apply wf_term_bd.
-  - intros (_ & _ & H). apply IH; exact H.
+  - intros (_ & _ & _ & H). apply IH; exact H.
 Qed.
 Lemma wf_stmt_bd off s b : wf_stmt off s -> stmt_bd s = Some b -> off < b.
 Proof.
-  destruct s as [x nl e|f p ps bd|e]; cbn [wf_stmt stmt_bd].
+  destruct s as [x nl e|x y zs nl e|f p ps bd|e]; cbn [wf_stmt stmt_bd].
+  - apply wf_expr_bd.
   - apply wf_expr_bd.
   - intros H E. inversion E; subst. apply wf_body_col; exact H.
   - apply wf_expr_bd.
@@ -744,6 +858,22 @@ Qed.
 
 (* ---------------------------------------------------------------- the inversion theorem *)
 Definition Pa (a : latom) := forall off c k, wf_atom off a -> PA off (r_atom inner c a ++ k) (er_atom a) k.
+(* the elements after the first one, up to and including the closing token *)
+Definition Pq (q : lseq) := forall off k bd cl kk, wf_seq off k bd q cl ->
+  exists c2,
+    match k with
+    | GPar => PCM off (aft bd (r_seq inner k q ++ r_gclose inner k cl ++ kk)) (er_seq q) ((TRP, c2) :: kk)
+    | GSlice => PSM off (aft bd (r_seq inner k q ++ r_gclose inner k cl ++ kk)) (er_seq q) ((TRS, c2) :: kk)
+    | GRec =>
+        match q with
+        | QNil => aft bd (r_gclose inner k cl ++ kk) = (TRB, c2) :: kk
+        | QCons sb f c e more =>
+            exists c1, aft bd (r_seq inner k q ++ r_gclose inner k cl ++ kk) =
+                       (TSEMI, c1) :: r_fld inner c f ++ r_expr inner (fld_col inner c f) e ++ r_seq inner k more ++ r_gclose inner k cl ++ kk /\
+            PFL off (r_fld inner c f ++ r_expr inner (fld_col inner c f) e ++ r_seq inner k more ++ r_gclose inner k cl ++ kk)
+                (er_fseq q) ((TRB, c2) :: kk)
+        end
+    end.
 Definition Pas (l : latoms) := forall off a c k, Pa a -> wf_atom off a -> wf_atoms off l -> end_of_term k = true ->
   PAS off (r_atom inner c a ++ r_atoms inner l ++ k) (er_atom a :: er_atoms l) k.
 Definition Pt (t : lterm) := forall off c k, wf_term off t -> tfol off t k ->
@@ -786,6 +916,7 @@ Definition Psarms (a : lsarms) := forall off prev k, wf_sarms off prev a -> efol
   end.
 
 Scheme latom_m := Induction for latom Sort Prop
+  with lseq_m := Induction for lseq Sort Prop
   with latoms_m := Induction for latoms Sort Prop
   with lterm_m := Induction for lterm Sort Prop
   with liftail_m := Induction for liftail Sort Prop
@@ -798,7 +929,7 @@ Scheme latom_m := Induction for latom Sort Prop
   with lrest_m := Induction for lrest Sort Prop
   with larms_m := Induction for larms Sort Prop
   with lsarms_m := Induction for lsarms Sort Prop.
-Combined Scheme l_mutind from latom_m, latoms_m, lterm_m, liftail_m, lifrest_m, l1rest_m, lbody_m, lexpr_m, lstmt_m, lblock_m, lrest_m, larms_m, lsarms_m.
+Combined Scheme l_mutind from latom_m, lseq_m, latoms_m, lterm_m, liftail_m, lifrest_m, l1rest_m, lbody_m, lexpr_m, lstmt_m, lblock_m, lrest_m, larms_m, lsarms_m.
 
 Lemma span_pat p c r :
   span_until is_arrow (r_pat inner p ++ (TARROW, c) :: r) = (er_pat p, (TARROW, c) :: r).
@@ -847,8 +978,68 @@ Proof.
   - rewrite r_1rest_R1NlElif, <- app_assoc, skip_nl. split; reflexivity.
 Qed.
 
+(* after an element: the separator or the closing token *)
+Lemma aft_sep k bd sb rest : sep_ok bd sb -> exists c1, aft bd (r_sep inner k sb ++ rest) = (g_sep k, c1) :: rest.
+Proof.
+  destruct bd as [b|], sb as [[bl c1]|]; cbn [sep_ok]; intros H; try contradiction.
+  - exists c1. cbn [aft r_sep]. rewrite <- app_assoc, skip_nl. cbn [app]. apply skip_eol_nonEOL. destruct k; discriminate.
+  - exists inner. reflexivity.
+Qed.
+Lemma aft_close k bd cl rest : close_ok k bd cl -> exists c2, aft bd (r_gclose inner k cl ++ rest) = (g_close k, c2) :: rest.
+Proof.
+  intros H. destruct bd as [b|].
+  - destruct cl as [[bl c1]|].
+    + exists c1. cbn [aft r_gclose]. rewrite <- app_assoc, skip_nl. cbn [app]. apply skip_eol_nonEOL. destruct k; discriminate.
+    + exists inner. cbn [aft r_gclose app]. apply skip_eol_nonEOL. destruct k; discriminate.
+  - destruct cl as [[bl c1]|]; [destruct k; contradiction|]. exists inner. reflexivity.
+Qed.
+
+Lemma elem_fol off k e more cl kk :
+  wf_seq off k (expr_bd e) more cl ->
+  efol off (expr_bd e) (expr_tm e) (expr_io e) (r_seq inner k more ++ r_gclose inner k cl ++ kk).
+Proof.
+  intros W.
+  assert (G : forall t0 sb rest, (t0 = g_sep k \/ t0 = g_close k) ->
+              (match expr_bd e, sb with None, None => True | Some b, Some (_, c) => c < b \/ t0 = TRP | Some b, None => t0 = TRP | None, Some _ => False end) ->
+              efol off (expr_bd e) (expr_tm e) (expr_io e)
+                   (match sb with None => [(t0, inner)] | Some (bl, c) => nl bl ++ [(t0, c)] end ++ rest)).
+  { intros t0 sb rest T H.
+    assert (NB : is_binop t0 = false /\ end_of_term ((t0, inner) :: rest) = true /\ ~ takes t0 /\ noelse t0 /\ t0 <> TEOL /\ t0 <> TELSE /\ t0 <> TELIF).
+    { destruct T as [-> | ->]; destruct k; cbn; repeat split; try discriminate; intros [X|[X|X]]; discriminate. }
+    destruct NB as (N1 & N2 & N3 & N4 & N5 & N6 & N7).
+    destruct sb as [[bl c]|].
+    - split; [reflexivity|]. split; [exact I|]. rewrite <- app_assoc, skip_nl. cbn [app].
+      rewrite (skip_eol_nonEOL _ _ _ N5). split; [exact N1|]. split; [|split].
+      + intros b Hb. rewrite Hb in H. destruct H as [H|H]; [right; exact H|left; exact H].
+      + intros _ X. contradiction.
+      + intros _. exact N4.
+    - cbn [app]. split; [destruct t0; cbn in *; try reflexivity; try discriminate|].
+      split; [destruct t0; try exact I; congruence|].
+      rewrite (skip_eol_nonEOL _ _ _ N5). split; [exact N1|]. split; [|split].
+      + intros b Hb. rewrite Hb in H. left. exact H.
+      + intros _ X. contradiction.
+      + intros _. exact N4. }
+  destruct more as [|sb f c e' more'].
+  - rewrite wf_seq_QNil in W. cbn [r_seq app]. unfold r_gclose. apply G; [right; reflexivity|].
+    unfold close_ok, sep_ok in W. destruct k, (expr_bd e), cl as [[? ?]|]; cbn in *; try contradiction; auto.
+  - rewrite wf_seq_QCons in W. destruct W as (S & _). rewrite r_seq_QCons. unfold r_sep. rewrite <- !app_assoc.
+    apply G; [left; reflexivity|]. unfold sep_ok in S. destruct (expr_bd e), sb as [[? ?]|]; cbn in *; try contradiction; auto.
+Qed.
+
+Lemma PT_app a l off c k :
+  Pa a -> Pas l -> wf_atom off a -> wf_atoms off l -> (is_slice a = true -> l = ANil) -> end_of_term k = true ->
+  PT off (r_atom inner c a ++ r_atoms inner l ++ k) (EApp (er_atom a :: er_atoms l)) k.
+Proof.
+  intros HA HL Wa Wl SL E.
+  destruct (r_atom_head c a (r_atoms inner l ++ k)) as (t0 & r & E0 & H0).
+  destruct (is_slice a) eqn:IS.
+  - rewrite (SL eq_refl) in *. cbn [r_atoms er_atoms app] in *. subst t0.
+    pose proof (HA off c k Wa) as P. rewrite E0 in *. apply PT_slice. exact P.
+  - pose proof (HL off a c k HA Wa Wl E) as P. rewrite E0 in *. apply PT_atoms; [exact H0|exact P].
+Qed.
+
 Theorem inversion :
-  (forall a, Pa a) /\ (forall l, Pas l) /\ (forall t, Pt t) /\ (forall tl, Ptail tl) /\ (forall r, Pif r) /\
+  (forall a, Pa a) /\ (forall q, Pq q) /\ (forall l, Pas l) /\ (forall t, Pt t) /\ (forall tl, Ptail tl) /\ (forall r, Pif r) /\
   (forall r, P1 r) /\ (forall b, Pbody b) /\
   (forall e, Pe e) /\ (forall s, Ps s) /\ (forall b, Pb b) /\ (forall r, Pr r) /\ (forall a, Parms a) /\
   (forall a, Psarms a).
@@ -870,19 +1061,87 @@ Proof.
       fold K. apply IHb; [exact W|]. split; [exact EK|]. split; [exact NK|]. rewrite SK.
       split; [reflexivity|]. split; [left; reflexivity|]. intros _. split; discriminate.
     + rewrite SK. apply PBA_stop. cbn. reflexivity.
+  - (* LUnit *) intros off c k _. apply PA_unit.
+  - (* LGroup *)
+    intros g f e (IHe & _) more IHq cl off c k W. rewrite wf_atom_LGroup in W. destruct W as (Fo & We & Wq).
+    rewrite r_atom_LGroup, er_atom_LGroup. cbn [app]. rewrite <- !app_assoc.
+    pose proof (elem_fol off g e more cl k Wq) as F.
+    pose proof (IHe off (fld_col inner inner f) _ We F) as PEe.
+    destruct (IHq off g (expr_bd e) cl k Wq) as (c2 & Q).
+    destruct g; cbn [g_open].
+    + (* tuple *) destruct f; [contradiction|]. cbn [r_fld fld_col app] in *.
+      destruct (r_expr_head inner e (r_seq inner GPar more ++ r_gclose inner GPar cl ++ k)) as (t0 & r0 & E0 & H0).
+      rewrite E0 in *. eapply PA_tuple; [apply (expr_head_facts t0 H0)|exact PEe|exact Q].
+    + (* slice *) destruct f; [contradiction|]. cbn [r_fld fld_col app] in *.
+      eapply PA_slice; [exact PEe|exact Q].
+    + (* record *) destruct f as [[[x n1] n2]|]; [|contradiction].
+      apply PA_rec with (c2 := c2).
+      assert (FN : exists c1, field_name x (match n1 with None => [(TEQ, inner)] | Some (bl, c1) => nl bl ++ [(TEQ, c1)] end ++
+                     match n2 with None => [] | Some (bl, _) => nl bl end ++
+                     r_expr inner (fld_col inner inner (Some (x, n1, n2))) e ++ r_seq inner GRec more ++ r_gclose inner GRec cl ++ k) =
+                   ([TA x], (TEQ, c1) :: match n2 with None => [] | Some (bl, _) => nl bl end ++
+                     r_expr inner (fld_col inner inner (Some (x, n1, n2))) e ++ r_seq inner GRec more ++ r_gclose inner GRec cl ++ k)).
+      { unfold field_name. destruct n1 as [[bl c1]|].
+        - exists c1. rewrite <- app_assoc, skip_nl. reflexivity.
+        - exists inner. reflexivity. }
+      destruct FN as (c1 & FN).
+      assert (SK : skip_eol (match n2 with None => [] | Some (bl, _) => nl bl end ++
+                     r_expr inner (fld_col inner inner (Some (x, n1, n2))) e ++ r_seq inner GRec more ++ r_gclose inner GRec cl ++ k) =
+                   r_expr inner (fld_col inner inner (Some (x, n1, n2))) e ++ r_seq inner GRec more ++ r_gclose inner GRec cl ++ k).
+      { destruct n2 as [[bl cc]|]; [rewrite skip_nl|]; apply skip_expr. }
+      cbn [r_fld app]. rewrite <- !app_assoc. cbn [er_fld].
+      destruct more as [|sb f' c' e' more'].
+      * cbn [r_seq app er_fseq] in *. rewrite Q in PEe.
+        eapply PFL_last; [exact FN|]. rewrite SK. exact PEe.
+      * destruct Q as (c3 & EQ & PF). rewrite EQ in PEe.
+        eapply PFL_cons; [exact FN| |exact PF]. rewrite SK. exact PEe.
+  - (* QNil *)
+    intros off g bd cl kk W. rewrite wf_seq_QNil in W. cbn [r_seq app er_seq].
+    destruct (aft_close g bd cl kk W) as (c2 & E). exists c2. rewrite E.
+    destruct g; cbn [g_close]; [apply PCM_nil; exact I|apply PSM_nil; exact I|reflexivity].
+  - (* QCons *)
+    intros sb f c e (IHe & _) more IHq off g bd cl kk W. rewrite wf_seq_QCons in W. destruct W as (So & Fo & We & Wq).
+    pose proof (elem_fol off g e more cl kk Wq) as F.
+    pose proof (IHe off (fld_col inner c f) _ We F) as PEe.
+    destruct (IHq off g (expr_bd e) cl kk Wq) as (c2 & Q). exists c2.
+    rewrite r_seq_QCons, <- !app_assoc.
+    destruct (aft_sep g bd sb (r_fld inner c f ++ r_expr inner (fld_col inner c f) e ++ r_seq inner g more ++ r_gclose inner g cl ++ kk) So) as (c1 & E).
+    rewrite E. destruct g; cbn [g_sep].
+    + destruct f; [contradiction|]. cbn [r_fld fld_col app] in *. rewrite er_seq_QCons.
+      eapply PCM_cons; [exact PEe|exact Q].
+    + destruct f; [contradiction|]. cbn [r_fld fld_col app] in *. rewrite er_seq_QCons.
+      eapply PSM_cons; [exact PEe|exact Q].
+    + destruct f as [[[x n1] n2]|]; [|contradiction]. exists c1. split; [reflexivity|].
+      assert (FN : exists c4, field_name x (match n1 with None => [(TEQ, inner)] | Some (bl, c1) => nl bl ++ [(TEQ, c1)] end ++
+                     match n2 with None => [] | Some (bl, _) => nl bl end ++
+                     r_expr inner (fld_col inner c (Some (x, n1, n2))) e ++ r_seq inner GRec more ++ r_gclose inner GRec cl ++ kk) =
+                   ([TA x], (TEQ, c4) :: match n2 with None => [] | Some (bl, _) => nl bl end ++
+                     r_expr inner (fld_col inner c (Some (x, n1, n2))) e ++ r_seq inner GRec more ++ r_gclose inner GRec cl ++ kk)).
+      { unfold field_name. destruct n1 as [[bl c4]|].
+        - exists c4. rewrite <- app_assoc, skip_nl. reflexivity.
+        - exists inner. reflexivity. }
+      destruct FN as (c4 & FN).
+      assert (SK : skip_eol (match n2 with None => [] | Some (bl, _) => nl bl end ++
+                     r_expr inner (fld_col inner c (Some (x, n1, n2))) e ++ r_seq inner GRec more ++ r_gclose inner GRec cl ++ kk) =
+                   r_expr inner (fld_col inner c (Some (x, n1, n2))) e ++ r_seq inner GRec more ++ r_gclose inner GRec cl ++ kk).
+      { destruct n2 as [[bl cc]|]; [rewrite skip_nl|]; apply skip_expr. }
+      cbn [r_fld app]. rewrite <- !app_assoc. rewrite er_fseq_QCons. cbn [er_fld].
+      destruct more as [|sb' f' c' e' more'].
+      * cbn [r_seq app er_fseq] in *. rewrite Q in PEe.
+        eapply PFL_last; [exact FN|]. rewrite SK. exact PEe.
+      * destruct Q as (c3 & EQ & PF). rewrite EQ in PEe.
+        eapply PFL_cons; [exact FN| |exact PF]. rewrite SK. exact PEe.
   - (* ANil *) intros off a c k PAa Wa _ E. cbn [r_atoms er_atoms app]. apply PAS_one; [apply PAa; exact Wa|exact E].
   - (* ACons *)
     intros c' a' IHa' l' IHl' off a c k PAa Wa Wl E. rewrite wf_atoms_ACons in Wl. destruct Wl as (Wa' & Wl').
     rewrite r_atoms_ACons, er_atoms_ACons. norm_app.
     eapply PAS_cons; [apply PAa; exact Wa| |].
-    + destruct (r_atom_head c' a' (r_atoms inner l' ++ k)) as (t0 & r & E0 & H0). rewrite E0.
-      destruct t0; cbn in H0; try contradiction; reflexivity.
+    + destruct (r_atom_head_e c' a' (r_atoms inner l' ++ k)) as (t0 & r & E0 & _ & H0). rewrite E0. exact H0.
     + apply IHl'; assumption.
   - (* LApp *)
-    intros a IHa l IHl off c k W F. rewrite wf_term_LApp in W. destruct W as (Wa & Wl). cbn [tfol] in F.
+    intros a IHa l IHl off c k W F. rewrite wf_term_LApp in W. destruct W as (Wa & Wl & SL). cbn [tfol] in F.
     rewrite r_term_LApp, er_term_LApp. cbn [term_bd aft]. rewrite <- app_assoc.
-    destruct (r_atom_head c a (r_atoms inner l ++ k)) as (t0 & r & E0 & H0).
-    pose proof (IHl off a c k IHa Wa Wl F) as P. rewrite E0 in *. apply PT_atoms; [exact H0|exact P].
+    apply PT_app; assumption.
   - (* LIf *)
     intros cd tl IHtl off c k W F. rewrite wf_term_LIf in W. cbn [tfol term_bd term_tm term_io] in F.
     rewrite r_term_LIf, er_term_LIf. cbn [term_bd]. norm_app. apply PT_if.
@@ -1012,19 +1271,15 @@ Proof.
       - exists c0. rewrite <- app_assoc, skip_nl. split; reflexivity.
       - exists inner. split; reflexivity. }
     split.
-    + intros off c k W F. rewrite wf_expr_LOp in W. destruct W as (Wa & Wl & We). cbn [expr_bd expr_tm expr_io] in F.
+    + intros off c k W F. rewrite wf_expr_LOp in W. destruct W as (Wa & Wl & SL & We). cbn [expr_bd expr_tm expr_io] in F.
       rewrite r_expr_LOp, er_expr_LOp. cbn [expr_bd]. norm_app.
       destruct (KS k) as (c0 & SK & EK).
-      destruct (r_atom_head c a (r_atoms inner l ++ r_brk inner brk o' ++ r_expr inner inner e' ++ k)) as (t0 & r & E0 & H0).
-      pose proof (IHl off a c _ IHa Wa Wl EK) as P. rewrite E0 in *.
-      eapply PE_intro; [apply PT_atoms; [exact H0|exact P]|].
+      eapply PE_intro; [apply PT_app; assumption|].
       eapply IHe2; [exact We|exact F|exact SK].
-    + intros off cur o c0 c k ts W F E. rewrite wf_expr_LOp in W. destruct W as (Wa & Wl & We). cbn [expr_bd expr_tm expr_io] in F.
+    + intros off cur o c0 c k ts W F E. rewrite wf_expr_LOp in W. destruct W as (Wa & Wl & SL & We). cbn [expr_bd expr_tm expr_io] in F.
       rewrite r_expr_LOp in E. rewrite er_cont_LOp. cbn [expr_bd]. revert E. norm_app. intros E.
       destruct (KS k) as (c1 & SK & EK).
-      destruct (r_atom_head c a (r_atoms inner l ++ r_brk inner brk o' ++ r_expr inner inner e' ++ k)) as (t0 & r & E0 & H0).
-      pose proof (IHl off a c _ IHa Wa Wl EK) as P. rewrite E0 in *.
-      eapply PBA_op; [exact E|reflexivity|apply PT_atoms; [exact H0|exact P]|].
+      eapply PBA_op; [exact E|reflexivity|apply PT_app; assumption|].
       eapply IHe2; [exact We|exact F|exact SK].
   - (* LLet *)
     intros x nl0 e (IHe & _) off c k W F. rewrite wf_stmt_LLet in W. cbn [stmt_bd stmt_tm stmt_io] in F. rewrite er_stmt_LLet. cbn [stmt_bd].
@@ -1033,6 +1288,22 @@ Proof.
       rewrite skip_nl, skip_expr. apply IHe; assumption.
     + rewrite r_stmt_LLet_same. norm_app. eapply PS_let with (c1 := inner); [reflexivity|].
       rewrite skip_expr. apply IHe; assumption.
+  - (* LLetD *)
+    intros x y zs nl0 e (IHe & _) off c k W F. rewrite wf_stmt_LLetD in W. cbn [stmt_bd stmt_tm stmt_io] in F.
+    rewrite er_stmt_LLetD. cbn [stmt_bd].
+    assert (SP : forall rest, span_until is_eq (r_dnames inner zs ++ (TRP, inner) :: (TEQ, inner) :: rest) =
+                              (er_dnames zs ++ [TRP], (TEQ, inner) :: rest)).
+    { intros rest. induction zs as [|z zs IH]; [reflexivity|]. cbn [r_dnames er_dnames app span_until is_eq orb].
+      rewrite IH. reflexivity. }
+    destruct nl0 as [[bl c']|].
+    + rewrite r_stmt_LLetD_next. norm_app. eapply PS_letv with (c1 := inner).
+      * cbn [span_until is_eq orb]. rewrite SP. reflexivity.
+      * reflexivity.
+      * rewrite skip_nl, skip_expr. apply IHe; assumption.
+    + rewrite r_stmt_LLetD_same. norm_app. eapply PS_letv with (c1 := inner).
+      * cbn [span_until is_eq orb]. rewrite SP. reflexivity.
+      * reflexivity.
+      * rewrite skip_expr. apply IHe; assumption.
   - (* LLetFn *)
     intros f p ps b IHb off c k W F. rewrite wf_stmt_LLetFn in W. cbn [stmt_bd stmt_tm stmt_io] in F.
     rewrite r_stmt_LLetFn, er_stmt_LLetFn. cbn [stmt_bd aft]. norm_app.
@@ -1170,7 +1441,7 @@ Proof. split; [reflexivity|]. split; exact I. Qed.
 Corollary block_inversion b off : wf_block off b ->
   exists n0, forall n, n0 <= n -> p_block n off (r_block inner b) = Ok (er_block b, []).
 Proof.
-  intros W. destruct inversion as (_ & _ & _ & _ & _ & _ & _ & _ & _ & HB & _).
+  intros W. destruct inversion as (_ & _ & _ & _ & _ & _ & _ & _ & _ & _ & HB & _).
   pose proof (HB b off [] W (bfol_nil _ _)) as P. rewrite app_nil_r in P. exact P.
 Qed.
 
@@ -1181,7 +1452,7 @@ Corollary dedent_ends_block_k b off k t c' r :
   (block_io b = true -> noelse t) -> c' < bcol b ->
   exists n0, forall n, n0 <= n -> p_block n off (r_block inner b ++ k) = Ok (er_block b, (t, c') :: r).
 Proof.
-  intros W E NE S N IO L. destruct inversion as (_ & _ & _ & _ & _ & _ & _ & _ & _ & HB & _).
+  intros W E NE S N IO L. destruct inversion as (_ & _ & _ & _ & _ & _ & _ & _ & _ & _ & HB & _).
   rewrite <- S. apply HB; [exact W|]. split; [exact E|]. split; [exact NE|]. rewrite S.
   split; [exact N|]. split; [right; exact L|exact IO].
 Qed.
@@ -1190,41 +1461,143 @@ Qed.
 Lemma p_root_skip n ts : p_root n (skip_eol ts) = p_root n ts.
 Proof. destruct n; [reflexivity|]. cbn [p_root]. rewrite skip_eol_idem. reflexivity. Qed.
 
-Lemma r_prog_skip p : skip_eol (r_prog inner p) = [] \/
-  exists bl c s p' r, p = (bl, c, s) :: p' /\ skip_eol (r_prog inner p) = r_stmt inner c s ++ r.
+Lemma span_atoks_eol stop l c (r : list ptok) :
+  (forall a, stop (TA a) = false) ->
+  span_until stop (atoks l ++ @cons ptok (TEOL, c) r) = (map TA l, @cons ptok (TEOL, c) r).
 Proof.
-  destruct p as [|[[bl c] s] p']; [left; reflexivity|right].
-  exists bl, c, s, p'. eexists. split; [reflexivity|]. cbn [r_prog]. rewrite skip_eols, skip_stmt. reflexivity.
+  intros Hs. induction l as [|a l IH]; cbn [Layout.atoks map app span_until].
+  - rewrite orb_true_r. reflexivity.
+  - rewrite Hs. cbn [orb]. unfold Layout.atoks in IH. rewrite IH. reflexivity.
+Qed.
+
+Definition root_head (t : tok) : Prop := t = TLET \/ t = TTYPE \/ exists k, t = TKW k.
+Lemma root_head_facts t : root_head t -> t <> TEOL /\ t <> TBAR /\ t <> TRP /\ is_binop t = false /\ noelse t.
+Proof. intros [->|[->|(k & ->)]]; repeat split; discriminate. Qed.
+
+Lemma r_root_head c x k : wf_root x -> exists t (r : list ptok), r_root inner c x ++ k = @cons ptok (t, c) r /\ root_head t.
+Proof.
+  destruct x as [s|name b0 c0 case0 cases|name b0 c0 d0 defs|kw toks]; intros W.
+  - destruct W as (_ & NE). cbn [r_root]. destruct (r_stmt_head c s k) as (t0 & r0 & E0 & H0).
+    exists t0, r0. split; [exact E0|]. left.
+    destruct s as [x nl0 e|x y zs nl0 e|f pp ps b|e]; try contradiction.
+    + destruct nl0 as [[? ?]|]; [rewrite r_stmt_LLet_next in E0|rewrite r_stmt_LLet_same in E0]; cbn [app] in E0; inversion E0; reflexivity.
+    + rewrite r_stmt_LLetFn in E0. cbn [app] in E0. inversion E0; reflexivity.
+  - cbn [r_root app]. eexists; eexists; split; [reflexivity|right; left; reflexivity].
+  - cbn [r_root app]. eexists; eexists; split; [reflexivity|right; right; eexists; reflexivity].
+  - cbn [r_root app]. eexists; eexists; split; [reflexivity|right; right; eexists; reflexivity].
+Qed.
+
+Lemma r_prog_skip p prev : wf_prog prev p -> skip_eol (r_prog inner p) = [] \/
+  exists t c r, skip_eol (r_prog inner p) = (t, c) :: r /\ root_head t /\ under prev c.
+Proof.
+  destruct p as [|[[bl c] x] p']; intros H; [left; reflexivity|right].
+  cbn [wf_prog] in H. destruct H as (U & W & _).
+  cbn [r_prog]. rewrite skip_eols.
+  destruct (r_root_head c x (nl 0 ++ r_prog inner p') W) as (t & r & E & H).
+  exists t, c, r. rewrite E. split; [apply skip_eol_nonEOL; apply (root_head_facts t H)|]. split; assumption.
+Qed.
+
+Definition PCS ts l r := exists n0, forall n, n0 <= n -> p_cases n ts = Ok (l, r).
+Lemma cases_parse : forall cases c0 case0 K,
+  (match skip_eol K with (TBAR, _) :: _ => False | _ => True end) -> head_is_eol K = true \/ K = [] ->
+  PCS ((TBAR, c0) :: atoks case0 ++ r_cases inner cases ++ K)
+      (map TA case0 :: map (fun c => map TA (snd c)) cases) K.
+Proof.
+  induction cases as [|[[bl c] toks] cases IH]; intros c0 case0 K NB HK.
+  - cbn [r_cases app map]. exists 1. intros n Hn. fuel n. cbn [p_cases].
+    destruct HK as [HK|HK].
+    + destruct K as [|[t cc] K']; [discriminate|]. destruct t; try discriminate.
+      rewrite (span_atoks_eol is_bar case0 cc K' ltac:(reflexivity)).
+      cbn [skip_eol] in *. destruct (skip_eol K') as [|[t2 c2] r2]; [reflexivity|]. destruct t2; try reflexivity; contradiction.
+    + subst K. rewrite app_nil_r.
+      assert (E : span_until is_bar (atoks case0) = (map TA case0, [])).
+      { clear. induction case0 as [|a l IH]; [reflexivity|]. cbn [Layout.atoks map span_until is_bar orb]. unfold Layout.atoks in IH. rewrite IH. reflexivity. }
+      rewrite E. reflexivity.
+  - cbn [r_cases map snd]. rewrite <- !app_assoc. unfold Layout.nl at 1. cbn [app].
+    destruct (IH c toks K NB HK) as (n1 & H1).
+    exists (S n1). intros n Hn. fuel n. cbn [p_cases].
+    rewrite (span_atoks_eol is_bar case0 inner _ ltac:(reflexivity)).
+    cbn [skip_eol]. rewrite skip_eols. cbn [skip_eol]. rewrite <- ?app_assoc. rewrite H1 by lia. reflexivity.
+Qed.
+
+Definition PXD c ts l r := exists n0, forall n, n0 <= n -> p_extdefs n c ts = Ok (l, r).
+Lemma defs_parse c0 : forall defs ci d0 K,
+  Forall (fun d => c0 <= snd (fst d)) defs ->
+  end_of_block c0 (skip_eol K) = true -> head_is_eol K = true ->
+  PXD c0 ((TLET, ci) :: atoks d0 ++ r_defs inner defs ++ K)
+      ((TLET :: map TA d0) :: map (fun d => TLET :: map TA (snd d)) defs) (skip_eol K).
+Proof.
+  induction defs as [|[[bl c] toks] defs IH]; intros ci d0 K F EB HK.
+  - cbn [r_defs app map]. exists 1. intros n Hn. fuel n. cbn [p_extdefs].
+    destruct K as [|[t cc] K']; [discriminate|]. destruct t; try discriminate.
+    cbn [span_until never orb]. rewrite (span_atoks_eol never d0 cc K' ltac:(reflexivity)).
+    rewrite EB. reflexivity.
+  - cbn [r_defs map snd]. rewrite <- !app_assoc. unfold Layout.nl at 1. cbn [app].
+    inversion F as [|? ? Fc F']; subst. cbn [fst snd] in Fc.
+    destruct (IH c toks K F' EB HK) as (n1 & H1).
+    exists (S n1). intros n Hn. fuel n. cbn [p_extdefs].
+    cbn [span_until never orb]. rewrite (span_atoks_eol never d0 inner _ ltac:(reflexivity)).
+    cbn [skip_eol]. rewrite skip_eols. cbn [skip_eol end_of_block].
+    rewrite (proj2 (Nat.ltb_ge c c0) Fc). cbn [orb]. rewrite <- ?app_assoc. rewrite H1 by lia. reflexivity.
 Qed.
 
 Lemma prog_inversion : forall p prev, wf_prog prev p ->
   exists n0, forall n, n0 <= n -> p_root n (r_prog inner p) = Ok (er_prog p).
 Proof.
-  destruct inversion as (_ & _ & _ & _ & _ & _ & _ & _ & HS & _).
-  induction p as [|[[bl c] s] p IH]; intros prev W.
+  destruct inversion as (_ & _ & _ & _ & _ & _ & _ & _ & _ & HS & _).
+  induction p as [|[[bl c] x] p IH]; intros prev W.
   - exists 1. intros n Hn. fuel n. reflexivity.
-  - cbn [wf_prog] in W. destruct W as (_ & Ws & NE & Wp).
+  - cbn [wf_prog] in W. destruct W as (_ & Wx & Wp).
     destruct (IH _ Wp) as (n2 & H2).
     set (k := nl 0 ++ r_prog inner p).
-    assert (F : efol 0 (stmt_bd s) (stmt_tm s) (stmt_io s) k).
-    { split; [reflexivity|]. split; [exact I|]. unfold k. rewrite skip_nl.
-      destruct (r_prog_skip p) as [->|(bl' & c' & s' & p' & r & -> & ->)]; [exact I|].
-      destruct (r_stmt_head c' s' r) as (t0 & r0 & E0 & H0). rewrite E0.
-      destruct (stmt_head_facts t0 H0) as (N1 & N2 & N3 & N4).
-      split; [exact N4|]. split; [|split].
-      - intros b Hb. right. cbn [wf_prog] in Wp. destruct Wp as (U & _). rewrite Hb in U. exact U.
-      - intros _ Ht. destruct (stmt_head_noelse t0 H0). destruct Ht as [Ht|[Ht|Ht]]; congruence.
-      - intros _. apply stmt_head_noelse. exact H0. }
-    destruct (HS s 0 c k Ws F) as (n1 & H1).
-    exists (S (Nat.max n1 n2)). intros n Hn. fuel n.
-    cbn [r_prog p_root]. rewrite skip_eols. fold k.
-    destruct (r_stmt_head c s k) as (t0 & r0 & E0 & H0).
-    assert (T : t0 = TLET).
-    { destruct s as [x nl0 e|f pp ps b|e]; [| |contradiction].
-      - destruct nl0 as [[? ?]|]; [rewrite r_stmt_LLet_next in E0|rewrite r_stmt_LLet_same in E0]; cbn [app] in E0; inversion E0; reflexivity.
-      - rewrite r_stmt_LLetFn in E0. cbn [app] in E0. inversion E0; reflexivity. }
-    subst t0. rewrite skip_stmt. specialize (H1 n ltac:(lia)). rewrite E0. cbv beta iota. rewrite <- E0. rewrite H1. cbn [bind].
-    rewrite <- p_root_skip, skip_aft. unfold k. rewrite skip_nl, p_root_skip. rewrite H2 by lia. cbn [bind er_prog map snd]. reflexivity.
+    assert (SKk : skip_eol k = skip_eol (r_prog inner p)) by (unfold k; apply skip_nl).
+    destruct x as [s|name b0 c0 case0 cases|name b0 c0 d0 defs|kw toks].
+    + (* a root let *)
+      destruct Wx as (Ws & NE).
+      assert (F : efol 0 (stmt_bd s) (stmt_tm s) (stmt_io s) k).
+      { split; [reflexivity|]. split; [exact I|]. rewrite SKk.
+        destruct (r_prog_skip p _ Wp) as [->|(t0 & c' & r & -> & H0 & U)]; [exact I|].
+        destruct (root_head_facts t0 H0) as (N1 & N2 & N3 & N4 & N5).
+        split; [exact N4|]. split; [|split].
+        - intros b Hb. right. cbn [root_bd] in U. rewrite Hb in U. exact U.
+        - intros _ Ht. destruct N5. destruct Ht as [Ht|[Ht|Ht]]; congruence.
+        - intros _. exact N5. }
+      destruct (HS s 0 c k Ws F) as (n1 & H1).
+      exists (S (Nat.max n1 n2)). intros n Hn. fuel n.
+      cbn [r_prog r_root p_root]. rewrite skip_eols. fold k.
+      destruct (r_root_head c (RLetL s) k (conj Ws NE)) as (t0 & r0 & E0 & H0). cbn [r_root] in E0.
+      assert (T : t0 = TLET).
+      { destruct s as [x nl0 e|x y zs nl0 e|f pp ps b|e]; try contradiction.
+        - destruct nl0 as [[? ?]|]; [rewrite r_stmt_LLet_next in E0|rewrite r_stmt_LLet_same in E0]; cbn [app] in E0; inversion E0; reflexivity.
+        - rewrite r_stmt_LLetFn in E0. cbn [app] in E0. inversion E0; reflexivity. }
+      subst t0. rewrite skip_stmt. specialize (H1 n ltac:(lia)). rewrite E0. cbv beta iota. rewrite <- E0. rewrite H1. cbn [bind].
+      rewrite <- p_root_skip, skip_aft. rewrite SKk, p_root_skip. rewrite H2 by lia. reflexivity.
+    + (* a union definition *)
+      assert (NB : match skip_eol k with (TBAR, _) :: _ => False | _ => True end).
+      { rewrite SKk. destruct (r_prog_skip p _ Wp) as [->|(t0 & c' & r & -> & H0 & U)]; [exact I|].
+        destruct (root_head_facts t0 H0) as (_ & N2 & _). destruct t0; try exact I. congruence. }
+      destruct (cases_parse cases c0 case0 k NB (or_introl eq_refl)) as (n1 & H1).
+      exists (S (Nat.max n1 n2)). intros n Hn. fuel n.
+      cbn [r_prog r_root p_root]. rewrite skip_eols. cbn [app skip_eol span_until is_eq orb].
+      rewrite <- ?app_assoc. rewrite ?skip_nl. cbn [app skip_eol]. rewrite <- ?app_assoc. fold k.
+      rewrite H1 by lia. cbn [bind]. rewrite <- p_root_skip, SKk, p_root_skip. rewrite H2 by lia. reflexivity.
+    + (* a package_info block *)
+      destruct Wx as (L0 & Fd).
+      assert (EB : end_of_block c0 (skip_eol k) = true).
+      { rewrite SKk. destruct (r_prog_skip p _ Wp) as [->|(t0 & c' & r & -> & H0 & U)]; [reflexivity|].
+        cbn [root_bd under] in U. cbn [end_of_block]. rewrite (proj2 (Nat.ltb_lt c' c0) U). reflexivity. }
+      destruct (defs_parse c0 defs c0 d0 k Fd EB eq_refl) as (n1 & H1).
+      exists (S (Nat.max n1 n2)). intros n Hn. fuel n.
+      cbn [r_prog r_root p_root]. rewrite skip_eols. cbn [app skip_eol is_pkginfo Nat.eqb span_until is_eq orb].
+      rewrite <- ?app_assoc. rewrite ?skip_nl. cbn [app skip_eol]. rewrite <- ?app_assoc. fold k.
+      destruct (c0 <=? 0) eqn:Ec; [apply Nat.leb_le in Ec; lia|].
+      rewrite H1 by lia. cbn [bind]. rewrite SKk, p_root_skip. rewrite H2 by lia. reflexivity.
+    + (* a package / import line *)
+      exists (S n2). intros n Hn. fuel n.
+      cbn [r_prog r_root p_root]. rewrite skip_eols. cbn [app skip_eol is_pkginfo Nat.eqb].
+      unfold Layout.nl. cbn [app Layout.eols repeat].
+      rewrite (span_atoks_eol never toks inner _ ltac:(reflexivity)).
+      change ((TEOL, inner) :: r_prog inner p) with k. rewrite <- p_root_skip, SKk, p_root_skip. rewrite H2 by lia. reflexivity.
 Qed.
 
 End Inv.
